@@ -1139,10 +1139,127 @@ def _documented_node_fields(prog, rule):
             got,), 'pyModelChecking/BDD/BDD.py')
 
 
+# -- R-BDD-7: no node hands out a container it keeps ----------------------------
+
+_CONTAINER_CTORS = ('set', 'list', 'dict', 'defaultdict', 'OrderedDict',
+                    'WeakSet', 'WeakValueDictionary', 'WeakKeyDictionary',
+                    'deque', 'bytearray', 'Counter')
+
+
+def _mutable_container_expr(e):
+    if isinstance(e, (ast.List, ast.Set, ast.Dict, ast.ListComp, ast.SetComp,
+                      ast.DictComp)):
+        return True
+    if isinstance(e, ast.Call):
+        fn = e.func
+        nm = fn.id if isinstance(fn, ast.Name) else (
+            fn.attr if isinstance(fn, ast.Attribute) else None)
+        return nm in _CONTAINER_CTORS
+    return False
+
+
+def _returned_kept_containers(class_nodes):
+    """[(class, method, attribute, return node)]: a method returns self.X
+    (or a local that is a plain copy of it) and some assignment in these
+    classes stores a mutable container in an attribute X"""
+    kept = set()
+    for c in class_nodes:
+        for n in ast.walk(c):
+            if isinstance(n, ast.Assign) and \
+                    _mutable_container_expr(n.value):
+                for t in n.targets:
+                    if isinstance(t, ast.Attribute):
+                        kept.add(t.attr)
+    out = []
+    for c in class_nodes:
+        for fn in c.body:
+            if not isinstance(fn, ast.FunctionDef) or not fn.args.args:
+                continue
+            me = fn.args.args[0].arg
+            alias = {}
+            for n in ast.walk(fn):
+                if isinstance(n, ast.Assign) and len(n.targets) == 1 and \
+                        isinstance(n.targets[0], ast.Name) and \
+                        isinstance(n.value, ast.Attribute) and \
+                        isinstance(n.value.value, ast.Name) and \
+                        n.value.value.id == me:
+                    alias[n.targets[0].id] = n.value.attr
+            for n in ast.walk(fn):
+                if not isinstance(n, ast.Return) or n.value is None:
+                    continue
+                v = n.value
+                a = None
+                if isinstance(v, ast.Attribute) and \
+                        isinstance(v.value, ast.Name) and v.value.id == me:
+                    a = v.attr
+                elif isinstance(v, ast.Name) and v.id in alias:
+                    a = alias[v.id]
+                if a is not None and a in kept:
+                    out.append((c, fn, a, n))
+    return kept, out
+
+
+def rule_bdd7(prog):
+    r = RuleResult('R-BDD-7', 'no method of a node class / OBDD returns a '
+                   'mutable container that the object keeps in an attribute '
+                   '(nodes are shared by all diagrams through hash-consing: '
+                   'a caller that edits the answer edits it for everyone)')
+    cls = []
+    for mn in ('BDD.BDD', 'BDD.OBDD'):
+        m = prog.module(mn)
+        for c in prog.classes.values():
+            if c.module is m:
+                cls.append(c)
+    cls.sort(key=lambda c: c.qn)
+    floor('R-BDD-7', 'classes of the BDD modules', len(cls), 4)
+    kept, hits = _returned_kept_containers([c.node for c in cls])
+    r.inst(classes=[c.short() for c in cls],
+           attributes_holding_containers=sorted(kept))
+    pos = ast.parse('class N:\n'
+                    '    def reset(self):\n'
+                    '        self._v = None\n'
+                    '    def vs(self):\n'
+                    '        if self._v is None:\n'
+                    '            self._v = set(self.walk())\n'
+                    '        return self._v\n').body[0]
+    neg = ast.parse('class N:\n'
+                    '    def reset(self):\n'
+                    '        self._p = WeakSet()\n'
+                    '        self.var = None\n'
+                    '    def vs(self):\n'
+                    '        return set(self._p)\n'
+                    '    def v(self):\n'
+                    '        return self.var\n').body[0]
+    if len(_returned_kept_containers([pos])[1]) != 1 or \
+            _returned_kept_containers([neg])[1]:
+        raise Inconclusive('R-BDD-7', 'matcher self-test failed', '')
+    r.notes.append('matcher self-test: positive example reported, negative '
+                   'example silent')
+    if not hits:
+        r.ok()
+        return r
+    by = {c.node: c for c in cls}
+    for (cn, fn, a, n) in hits:
+        c = by[cn]
+        r.fail(Finding(
+            PROP, 'R-BDD-7', '%s:%d' % (c.module.relpath, n.lineno),
+            '%s.%s' % (c.short(), fn.name), 'kept-container:%s:%s' % (
+                fn.name, a),
+            '%s.%s returns self.%s, a mutable container the object keeps: '
+            'the object is shared (hash-consed nodes are the same for every '
+            'OBDD with that sub-diagram), so a caller that updates the '
+            'returned value changes what every later call answers' % (
+                c.short(), fn.name, a),
+            expected='a fresh container per call',
+            found='the stored one'), witness=a)
+    return r
+
+
 def run(prog, tier, seed):
     _documented_node_fields(prog, 'R-BDD-1')
     T = Attempts()
     r6 = T(rule_bdd6, prog)
+    r7 = T(rule_bdd7, prog)
     r1, found = T(rule_bdd1, prog, tier, _n=2)
     if found is None:
         found = T(discover_steps, prog)
@@ -1183,5 +1300,5 @@ def run(prog, tier, seed):
         dep += adopt(T.results(T(c18.rule_bp5, prog, pf[1], pf[0])), PROP,
                      'a variable outside the ordering raises RuntimeError '
                      'only through the ordering check of the constructor')
-    return T.results(r1, r2, r3, r4, r5, r6) + dep, expl, assumptions, \
+    return T.results(r1, r2, r3, r4, r5, r6, r7) + dep, expl, assumptions, \
         T.extra()
